@@ -8,7 +8,7 @@ from typing import Dict, List, Optional, Set, Tuple
 from ..cfg import cfg_of
 from ..flow import EMPTY, BasePolicy, TagFlow
 from ..model import AnalysisError, FunctionInfo, bind_args
-from ..quant import Normaliser, show, top_conjuncts, top_disjuncts
+from ..quant import absorb_nan_guard, Normaliser, show, top_conjuncts, top_disjuncts
 from ..roles import roles_of
 from ..terms import call_name, canon, const_num, dotted, guard_of, norm_stmt
 from .common import attr_stores, iter_stores, reaching_assignments, self_attr_of, store_base, pos
@@ -130,7 +130,7 @@ def check(ctx):
     conds = []  # (If, formula, disjunct list)
     for node, exc in raise_ifs(prog, val):
         nz = Normaliser(resolver(node), rename, inline=inline_mask_helper(prog, val), nan_strict=True)
-        f = nz.quant(node.test, True)
+        f = absorb_nan_guard(nz.quant(node.test, True))
         conds.append((node, exc, f, top_disjuncts(f)))
     all_disj = {}
     for node, exc, f, ds in conds:
